@@ -423,6 +423,35 @@ func (r *Run) portfolioBuild(names []string, race bool, extraReplace map[string]
 		}
 		pkgs = append(pkgs, g.Src.Name)
 	}
+	// a fixed slice of the bounded struct grammar (shapes without a C05 finding): the statement of
+	// C01-C03 quantifies over shapes, and generator edits only show on shapes
+	if n := r.Spec.Universe; n > 0 && !race && extraReplace == nil {
+		usrcs := universeSlice(r.Kit, n)
+		ures := r.generate(pgen, usrcs, false)
+		var names []string
+		for _, g := range ures {
+			if !g.OK {
+				r.M.Violations = append(r.M.Violations, Violation{Prop: r.Prop, Key: "shape=" + g.Src.Sig + ";kind=gen_fail", Case: "build", Shape: g.Src.Name,
+					Detail: fmt.Sprintf("struct shape %s (no known finding) — parquetgen failed:\n%s\n%s", g.Src.Sig, g.Src.Code, g.Output)})
+				continue
+			}
+			names = append(names, g.Src.Name)
+		}
+		failed := r.compileSet(names)
+		if msg, ok := failed["*"]; ok {
+			return "", &buildViolation{Shape: "repository", Kind: "compile_fail", Detail: msg}
+		}
+		for _, nme := range names {
+			if msg, bad := failed[nme]; bad {
+				src := r.Srcs[nme]
+				r.M.Violations = append(r.M.Violations, Violation{Prop: r.Prop, Key: "shape=" + src.Sig + ";kind=compile_fail", Case: "build", Shape: nme,
+					Detail: fmt.Sprintf("struct shape %s (no known finding) — generated code does not compile:\n%s\n%s", src.Sig, src.Code, msg)})
+				continue
+			}
+			pkgs = append(pkgs, nme)
+		}
+		r.M.Counters["universe_shapes_built"] = int64(len(pkgs) - len(gres))
+	}
 	bin, out, err := r.buildDriver("drv", pkgs, race)
 	if err != nil {
 		return "", &buildViolation{Shape: "portfolio", Kind: "compile_fail", Detail: "generated code for the portfolio (or the repository) does not compile: " + tail(out, 4000)}
@@ -453,5 +482,25 @@ func sortedKeys(m map[string]struct{}) []string {
 		out = append(out, k)
 	}
 	sort.Strings(out)
+	return out
+}
+
+// universeSlice returns n shapes spread over the enumeration (<= 4 nodes) that
+// have no C05 finding, named like C05 names them.
+func universeSlice(kit string, n int) []shapes.Src {
+	broken := knownShapeSigs(kit)
+	all := shapes.EnumSrcs(4, 3)
+	var out []shapes.Src
+	for _, i := range spread(len(all), n*13/10) {
+		s := all[i]
+		if broken[s.Sig] || len(s.Sig) < 5 {
+			continue
+		}
+		s.Meta = map[string]string{"universe": "1"}
+		out = append(out, s)
+		if len(out) >= n {
+			break
+		}
+	}
 	return out
 }
